@@ -209,7 +209,72 @@ def _s2(program, res):
     res.assumptions.append("pandas.DataFrame.groupby drops rows with a null key unless dropna=False (API contract, pandas >= 1.1)")
 
 
+# aggregation names pandas resolves only on a GroupBy object (Series.agg / DataFrame.agg raise AttributeError for them)
+PANDAS_GROUPBY_ONLY_AGGREGATIONS = {"first", "last"}
+
+
+def ungrouped_aggregation_names_rule(program, res, rule="C09-S2"):
+    """an un-grouped project aggregates the plain frame: `frame[col].agg(<name>)`.  The names that reach that call include first / last (and
+    any_value, mapped to first), which pandas knows only on a groupby — the un-grouped case needs its own computation for them"""
+    pb = program.cls("pandas_base", "PandasModelBase")
+    m = pb.methods.get("_project_step")
+    init = pb.methods.get("__init__")
+    mapped = {v.value for st in ast.walk(init.node) if isinstance(st, ast.Assign) and unparse(st.targets[0]) == "self.transform_op_map" and isinstance(st.value, ast.Dict)
+              for v in st.value.values if isinstance(v, ast.Constant)}
+    reachable = PANDAS_GROUPBY_ONLY_AGGREGATIONS | (mapped & PANDAS_GROUPBY_ONLY_AGGREGATIONS)
+    g = cfgmod.build(m.node)
+    n = 0
+    for node in g.stmt_nodes(("stmt",)):
+        for c in ast.walk(node.stmt):
+            if isinstance(c, ast.Call) and isinstance(c.func, ast.Attribute) and c.func.attr == "agg" and c.args and isinstance(c.args[0], ast.Name) \
+                    and isinstance(c.func.value, ast.Subscript) and not (isinstance(c.func.value.slice, ast.Constant)):
+                n += 1
+                excluded = any(lab is False and "group_by" in unparse(b.cond) and all(repr(nm) in unparse(b.cond) for nm in sorted(reachable)) for b, lab in g.lexical_guards(node))
+                if excluded:
+                    res.ok(rule, f"_project_step: `{unparse(c)}` is not reached un-grouped with {sorted(reachable)}")
+                else:
+                    res.fail_at(rule, m, "ungrouped-agg-with-groupby-only-name",
+                                f"`{unparse(c)}` also runs when the project has no group_by, and the name may be one of {sorted(reachable)} (any_value is mapped to first), which "
+                                f"pandas resolves only on a groupby: project({{'r': 'x.any_value()'}}) raises AttributeError on Pandas; Polars and SQL return the row", c)
+    if n == 0:
+        raise AnalysisError("Pandas _project_step: the aggregation of a user column (`frame[col].agg(name)`) was not found")
+
+
+def sql_counts_rule(program, res, rule="C09-S3", dialects=(("SQLite", "SQLiteModel"), ("PostgreSQL", "PostgreSQLModel"))):
+    """an un-grouped project returns one row also over no rows, and in it a count is 0 (Pandas, Polars).  In SQL only COUNT is 0 over no rows; SUM of
+    anything is NULL there.  The templates of the row and value counts therefore have to be COUNT(…) (or say COALESCE(…, 0))"""
+    from .. import sqlexpr
+    import re as _re
+    n = 0
+    for mod, cls in dialects:
+        d_ = sqlexpr.Dialect(program, mod, cls)
+        for op in ("size", "_size", "count", "_count"):
+            try:
+                kind, info = d_.resolve(op)
+            except AnalysisError:
+                continue
+            if kind != "formatter":
+                texts = [str(info)]
+            else:
+                fn = d_.formatter_func(info)
+                texts = [sqlexpr.render(t) for t in sqlexpr.fold_function(fn)] if fn is not None else []
+            for text in texts:
+                n += 1
+                t = text.strip().upper()
+                if t.startswith("COUNT") or t.startswith("COALESCE("):
+                    res.ok(rule, f"{cls}: `{op}` is emitted as `{text.strip()[:40]}` (0 over no rows)")
+                elif _re.match(r"^SUM\s*\(", t):
+                    res.fail(rule, f"{mod}:{cls}", f"sql-count-is-sum:{op}",
+                             f"{cls} emits `{op}` as `{text.strip()[:60]}`: a SUM over no rows is NULL, so select_rows('x > 100').project({{'n': '_size()'}}) returns NULL on SQL and 0 "
+                             f"on Pandas and Polars (and a following select_rows('n == 0') drops the row)", f"data_algebra/{mod}.py", 0)
+                else:
+                    res.abstain(rule, f"{cls}: `{op}` template `{text.strip()[:40]}`", "neither COUNT nor SUM")
+    res.expect_count(rule, "count templates examined", n, 6)
+
+
 def _s3(program, res):
+    sql_counts_rule(program, res)
+    ungrouped_aggregation_names_rule(program, res)
     pm = program.method("polars_model", "PolarsModel", "_project_step", inherited=False)
     res.analysed(pm)
     g = cfgmod.build(pm.node)
